@@ -663,6 +663,7 @@ func (session *HermesSession) Run(workingDir string, args []string, logID string
 				}
 				// ************ CALCULATION OF NITROGEN DYNAMICS ************
 				// ************ BERECHNUNG DER STICKSTOFFDYNAMIK ************
+				verifBeforeNitro(&g, ZEIT, SUBD)
 				finished, err := Nitro(WDT, SUBD, ZEIT, &g, &nitroSharedVars, &nitroSharedBBBVars, &herPath, &cropOut)
 				if err != nil {
 					return err
